@@ -56,6 +56,9 @@ func doNeg(c *router.Context, k negCall) (ans string, panicked bool) {
 var mediaRanges = []string{"text/html", "application/json", "application/xml", "text/plain", "image/png",
 	"text/*", "application/*", "image/*", "*/*", "*/*", "TEXT/HTML", "Application/Json", "application/vnd.api+json",
 	"text/css", "application/xhtml+xml", "*/html", "text", "*", "text/", "/html", "a/b/c"}
+var mediaRangesValid = mediaRanges[:15]
+var mediaOffersValid = []string{"json", "html", "xml", "text", "txt", "png", "css", "application/json", "text/html",
+	"text/plain", "image/png", "TEXT/HTML", " text/plain ", "application/vnd.api+json", "application/xml", "JSON", "image/webp", "webp"}
 var mediaOffers = []string{"json", "html", "xml", "text", "txt", "png", "css", "application/json", "text/html",
 	"text/plain", "image/png", "TEXT/HTML", " text/plain ", "application/vnd.api+json", "application/xml", "JSON",
 	"foo", "application/json;version=1", "", "image/webp", "webp"}
@@ -71,13 +74,28 @@ var tokOffers = [4][]string{
 	{"gzip", "br", "deflate", "identity", "compress", "GZIP", "gzip ", "x-gzip", "zstd", ""},
 	{"en", "en-US", "en-GB", "fr", "fr-CA", "de", "EN", "zh-Hant-TW", "zh", "es", " en", ""},
 }
+var tokPoolsValid = [4][]string{
+	nil,
+	{"utf-8", "iso-8859-1", "us-ascii", "utf-16", "*", "UTF-8", "utf", "windows-1252"},
+	{"gzip", "br", "deflate", "identity", "compress", "*", "GZIP", "x-gzip", "zstd"},
+	{"en", "en-US", "en-GB", "fr", "fr-CA", "de", "*", "EN-us", "zh-Hant-TW", "zh-Hant", "zh", "e", "es"},
+}
+var tokOffersValid = [4][]string{
+	nil,
+	{"utf-8", "iso-8859-1", "us-ascii", "utf-16", "UTF-8", " utf-8", "utf", "ascii"},
+	{"gzip", "br", "deflate", "identity", "compress", "GZIP", "gzip ", "x-gzip", "zstd"},
+	{"en", "en-US", "en-GB", "fr", "fr-CA", "de", "EN", "zh-Hant-TW", "zh", "es", " en"},
+}
 var qValid = []string{"0", "1", "0.5", "0.9", "0.8", "0.7", "0.1", "0.001", "0.999", "1.0", "1.000", "0.0", "0.000", "0.50", "0.10", "0.01", "0.3", "0.30", "0.300"}
 var qOdd = []string{"0.", "1.", ".5", "0.5555", "1.5", "2", "-1", "abc", "", "1e-1", "0.50000", "+0.5", "00.5", "1.0000",
 	"0x1p-1", "5e-1", "NaN", "inf", "0,5", "1.001", "0.0000", "0.9999", "01", "1x", "0.5x", "00", "-0", "0.0001"}
 var seps = []string{",", ", ", ", ", " , ", ",,", ",\t", ", ,", " ,"}
 
-func genQ(r *hx.Rand) string {
-	if r.Chance(1, 6) {
+func genQ(r *hx.Rand, clean bool) string {
+	if clean && r.Chance(1, 12) {
+		return hx.Pick(r, []string{"0.", "1."}) // grammatical, but only the float fallback accepts them
+	}
+	if !clean && r.Chance(1, 4) {
 		return hx.Pick(r, qOdd)
 	}
 	if r.Chance(1, 6) { // any 0..3 digit qvalue
@@ -90,8 +108,34 @@ func genQ(r *hx.Rand) string {
 	return hx.Pick(r, qValid)
 }
 
-func genParams(r *hx.Rand) string {
-	q := genQ(r)
+func genParams(r *hx.Rand, clean bool) string {
+	q := genQ(r, clean)
+	if clean { // only forms inside the RFC 9110 grammar (blanks around ';', empty parameters, other parameters, upper-case Q)
+		switch r.Intn(14) {
+		case 0, 1, 2, 3:
+			return ";q=" + q
+		case 4:
+			return "; q=" + q
+		case 5:
+			return " ;q=" + q
+		case 6:
+			return " ; q=" + q
+		case 7:
+			return ";Q=" + q
+		case 8:
+			return ";q=" + q + ";x=1"
+		case 9:
+			return ";level=1;q=" + q
+		case 10:
+			return ";;q=" + q + "; "
+		case 11:
+			return ";charset=utf-8"
+		case 12:
+			return "\t;\tq=" + q + " "
+		default:
+			return ";v=\"1\";q=" + q
+		}
+	}
 	switch r.Intn(24) {
 	case 0, 1, 2, 3, 4, 5, 6, 7:
 		return ";q=" + q
@@ -110,7 +154,7 @@ func genParams(r *hx.Rand) string {
 	case 15:
 		return ";level=1;q=" + q
 	case 16:
-		return ";q=" + q + ";q=" + genQ(r)
+		return ";q=" + q + ";q=" + genQ(r, clean)
 	case 17:
 		return hx.Pick(r, []string{";q", ";=1", ";", ";;", "; ;q=" + q, ";q=", ";x"})
 	case 18:
@@ -132,9 +176,16 @@ func genNegHeader(r *hx.Rand, kind int) string {
 	if r.Chance(1, 12) {
 		return ""
 	}
+	clean := r.Chance(3, 5)
 	pool := mediaRanges
 	if kind != kAccept {
 		pool = tokPools[kind]
+	}
+	if clean {
+		pool = mediaRangesValid
+		if kind != kAccept {
+			pool = tokPoolsValid[kind]
+		}
 	}
 	n := r.Range(1, 5)
 	switch r.Intn(30) {
@@ -155,7 +206,7 @@ func genNegHeader(r *hx.Rand, kind int) string {
 		}
 		b.WriteString(hx.Pick(r, pool))
 		if r.Chance(3, 5) {
-			b.WriteString(genParams(r))
+			b.WriteString(genParams(r, clean))
 		}
 	}
 	if r.Chance(1, 10) {
@@ -168,6 +219,12 @@ func genOffers(r *hx.Rand, kind int) []string {
 	pool := mediaOffers
 	if kind != kAccept {
 		pool = tokOffers[kind]
+	}
+	if r.Chance(3, 4) {
+		pool = mediaOffersValid
+		if kind != kAccept {
+			pool = tokOffersValid[kind]
+		}
 	}
 	n := r.Range(1, 4)
 	if r.Chance(1, 25) {
